@@ -230,8 +230,8 @@ def check(ctx):
             ctx.check(ok, "R06.1", "DynWeighted/delegates-to-chosen", short(sel[0], 4), f.at())
             r = peel(p.ret, ("Result::map_err",), casts=False)
             ctx.check(r == sel[0], "R06.1", "DynWeighted/returns-inner-selection", short(p.ret, 4), f.at())
-            src = cw[0][3][0]
-            ctx.check(derives_from_self(src, field="selectors") and cw[0][3][1] == RNG, "R06.1", "DynWeighted/chooses-among-own-selectors", short(cw[0], 3), f.at())
+            src = cw[0][3][0] if cw else ("unknown", "no choose_weighted call")
+            ctx.check(bool(cw) and derives_from_self(src, field="selectors") and cw[0][3][1] == RNG, "R06.1", "DynWeighted/chooses-among-own-selectors", short(cw[0], 3) if cw else "no choose_weighted on this path", f.at())
 
     # ---- escape hatches in ec_core ---------------------------------------
     bad = []
